@@ -710,17 +710,16 @@ Proof.
   intros F f. pose proof (sort_dedup_sorted G) as S. pose proof (sort_dedup_u16 G F) as U.
   destruct f; cbn [cov_build_fmt cov_wf]; [|exact S]. split.
   - apply ranges_for_glyphs_sorted; [exact S|]. eapply Forall_impl; [|exact U]. unfold u16. intros; lia.
-  - rewrite Forall_forall. intros [[s e] ci] H.
-    destruct (In_znth _ _ (0, 0, 0) H) as [i [R Z]].
-    pose proof (rs_sorted_nth (-1) _ (ranges_for_glyphs_sorted _ (-1) S
-                  ltac:(eapply Forall_impl; [|exact U]; unfold u16; intros; lia)) i R) as N.
-    unfold rrec in *. rewrite Z in N. cbn.
+  - assert (SR : rs_sorted (-1) (ranges_for_glyphs (sort_dedup G))).
+    { apply ranges_for_glyphs_sorted; [exact S|]. eapply Forall_impl; [|exact U]. unfold u16. intros; lia. }
+    rewrite Forall_forall. intros [[s e] ci] H.
+    destruct (@In_znth rrec _ _ (0, 0, 0) H) as [i [R Z]].
+    pose proof (rs_sorted_nth (-1) _ SR i R) as N.
+    rewrite Z in N. cbn.
     assert (A : rfind cov_val (ranges_for_glyphs (sort_dedup G)) s = Some (ci + (s - s))).
-    { erewrite rfind_nth; [rewrite Z; reflexivity | | exact R | rewrite Z; lia].
-      apply ranges_for_glyphs_sorted; [exact S|]. eapply Forall_impl; [|exact U]. unfold u16. intros; lia. }
+    { rewrite (rfind_nth cov_val (-1) _ s i SR R); [rewrite Z; reflexivity | rewrite Z; lia]. }
     assert (B : rfind cov_val (ranges_for_glyphs (sort_dedup G)) e = Some (ci + (e - s))).
-    { erewrite rfind_nth; [rewrite Z; reflexivity | | exact R | rewrite Z; lia].
-      apply ranges_for_glyphs_sorted; [exact S|]. eapply Forall_impl; [|exact U]. unfold u16. intros; lia. }
+    { rewrite (rfind_nth cov_val (-1) _ e i SR R); [rewrite Z; reflexivity | rewrite Z; lia]. }
     rewrite ranges_for_glyphs_rfind in A, B.
     pose proof (index_of_sorted_u16_bound _ _ _ S U A). pose proof (index_of_sorted_u16_bound _ _ _ S U B). lia.
 Qed.
@@ -810,7 +809,7 @@ Proof.
 Qed.
 
 (* ---- split_range_record ---- *)
-Lemma split_rr_spec s e ci a b' : s <= e ->
+Lemma split_rr_spec s e ci a b' : s <= e -> a <= b' ->
   match split_range_record (s, e, ci) a b' with
   | Some (s', e', ci') =>
       s <= s' /\ s' <= e' /\ e' <= e /\
@@ -819,29 +818,30 @@ Lemma split_rr_spec s e ci a b' : s <= e ->
   | None => forall g, s <= g <= e -> ~ (a <= ci + (g - s) <= b')
   end.
 Proof.
-  intros H. unfold split_range_record, sat_sub.
+  intros H Hab. unfold split_range_record, sat_sub. cbv zeta.
   destruct ((b' <? ci) || (ci + (e - s) <? a)) eqn:E.
   - apply orb_true_iff in E. rewrite !Z.ltb_lt in E. intros g Hg. lia.
-  - apply orb_false_iff in E. rewrite !Z.ltb_ge in E. repeat split; try lia.
+  - apply orb_false_iff in E. rewrite !Z.ltb_ge in E. destruct E as [E1 E2].
+    split; [lia|]. split; [lia|]. split; [lia|]. split; intros g; lia.
 Qed.
 
-Lemma filter_map_split_sorted a b' rs : forall lo, rs_sorted lo rs ->
+Lemma filter_map_split_sorted a b' rs : a <= b' -> forall lo, rs_sorted lo rs ->
   rs_sorted lo (filter_map (fun r => split_range_record r a b') rs).
 Proof.
-  induction rs as [|[[s e] ci] r IH]; intros lo S; cbn [filter_map]; [exact S|].
-  destruct S as [A [B C]]. pose proof (split_rr_spec s e ci a b' B) as P.
+  intros Hab. induction rs as [|[[s e] ci] r IH]; intros lo S; cbn [filter_map]; [exact S|].
+  destruct S as [A [B C]]. pose proof (split_rr_spec s e ci a b' B Hab) as P.
   destruct (split_range_record (s, e, ci) a b') as [[[s' e'] ci']|].
   - cbn. destruct P as [P1 [P2 [P3 _]]]. repeat split; try lia.
     apply (rs_sorted_weaken e); [lia | now apply IH].
   - apply (rs_sorted_weaken e); [lia | now apply IH].
 Qed.
 
-Lemma filter_map_split_rfind a b' rs g : forall lo, rs_sorted lo rs ->
+Lemma filter_map_split_rfind a b' rs g : a <= b' -> forall lo, rs_sorted lo rs ->
   rfind cov_val (filter_map (fun r => split_range_record r a b') rs) g = window a (b' + 1) (rfind cov_val rs g).
 Proof.
-  induction rs as [|[[s e] ci] r IH]; intros lo S; cbn [filter_map rfind]; [reflexivity|].
-  destruct S as [A [B C]]. pose proof (split_rr_spec s e ci a b' B) as P.
-  pose proof (filter_map_split_sorted a b' r e C) as ST.
+  intros Hab. induction rs as [|[[s e] ci] r IH]; intros lo S; cbn [filter_map rfind]; [reflexivity|].
+  destruct S as [A [B C]]. pose proof (split_rr_spec s e ci a b' B Hab) as P.
+  pose proof (filter_map_split_sorted a b' r Hab e C) as ST.
   destruct ((s <=? g) && (g <=? e)) eqn:IN.
   - apply andb_true_iff in IN as [I1 I2]. apply Z.leb_le in I1, I2. cbn [window cov_val].
     destruct (split_range_record (s, e, ci) a b') as [[[s' e'] ci']|].
@@ -867,36 +867,46 @@ Proof.
     symmetry. apply andb_false_iff in IN. rewrite !Z.leb_gt in IN. apply andb_false_iff. rewrite !Z.leb_gt. lia.
 Qed.
 
-Lemma filter_map_split_ok a b' rs lo : 0 <= a -> rs_sorted lo rs -> Forall rr_ok rs ->
+Lemma filter_map_split_ok a b' rs lo : 0 <= a -> a <= b' -> rs_sorted lo rs -> Forall rr_ok rs ->
   Forall rr_ok (filter_map (fun r => split_range_record r a b') rs).
 Proof.
-  intros Ha. revert lo. induction rs as [|[[s e] ci] r IH]; intros lo S F; cbn [filter_map]; [constructor|].
-  destruct S as [A [B C]]. inversion F; subst. pose proof (split_rr_spec s e ci a b' B) as P.
+  intros Ha Hab. revert lo. induction rs as [|[[s e] ci] r IH]; intros lo S F; cbn [filter_map]; [constructor|].
+  destruct S as [A [B C]]. inversion F; subst. pose proof (split_rr_spec s e ci a b' B Hab) as P.
   destruct (split_range_record (s, e, ci) a b') as [[[s' e'] ci']|]; [|now apply (IH e)].
   constructor; [|now apply (IH e)]. destruct P as [P1 [P2 [P3 [P4 P5]]]]. cbn in H1 |- *.
   pose proof (P5 s'). pose proof (P5 e'). destruct (P4 s') as [Q _]. specialize (Q ltac:(lia)). lia.
 Qed.
 
 (* splitting.rs split_coverage: meaning of the result *)
-Lemma split_coverage_spec c a b c' : cov_wf c -> 0 <= a ->
+Lemma split_coverage_spec c a b c' : cov_wf c -> 0 <= a -> a < b ->
   split_coverage c a b = Some c' ->
   cov_wf c' /\ forall g, cov_sem c' g = window a b (cov_sem c g).
 Proof.
-  intros W Ha. unfold split_coverage. destruct (b <? a) eqn:E; [discriminate|]. apply Z.ltb_ge in E.
+  intros W Ha Hab. unfold split_coverage. destruct (b <? a) eqn:E; [discriminate|]. apply Z.ltb_ge in E.
   destruct c as [l|rs].
   - destruct (zlen l <? b) eqn:E2; [discriminate|]. apply Z.ltb_ge in E2. intros H; inversion H; subst.
     cbn [cov_wf cov_sem] in *. split; [now apply ssorted_sublist|]. intros g. apply index_of_sublist; auto; lia.
-  - destruct (b =? 0) eqn:E2; [discriminate|]. intros H; inversion H; subst. destruct W as [S F].
+  - destruct (b =? 0) eqn:E2; [discriminate|].
+    destruct (existsb _ rs); [discriminate|]. intros H; inversion H; subst. destruct W as [S F].
     cbn [cov_wf cov_sem]. split; [split|].
-    + now apply filter_map_split_sorted.
-    + now apply (filter_map_split_ok a (b - 1) rs (-1)).
-    + intros g. rewrite (filter_map_split_rfind a (b - 1) rs g (-1) S). f_equal. lia.
+    + apply filter_map_split_sorted; [lia | exact S].
+    + apply (filter_map_split_ok a (b - 1) rs (-1)); auto; lia.
+    + intros g. rewrite (filter_map_split_rfind a (b - 1) rs g ltac:(lia) (-1) S). f_equal. lia.
+Qed.
+(* with a non-empty window the u16 subtraction in split_range_record cannot underflow *)
+Lemma split_no_underflow a b' rs lo : a <= b' -> rs_sorted lo rs ->
+  existsb (fun r => split_rr_underflows r a b') rs = false.
+Proof.
+  intros Hab. revert lo. induction rs as [|[[s e] ci] r IH]; intros lo S; cbn [existsb]; [reflexivity|].
+  destruct S as [A [B C]]. rewrite (IH e C), orb_false_r. unfold split_rr_underflows.
+  destruct ((b' <? ci) || (ci + (e - s) <? a)) eqn:E; [reflexivity|]. cbn [negb andb].
+  apply orb_false_iff in E. rewrite !Z.ltb_ge in E. apply Z.ltb_ge. lia.
 Qed.
 
 (* ================================================================================================ *)
 (* split_pair_pos_format_1 preserves the lookup *)
 Fixpoint chain (prev : Z) (sps : list Z) (last : Z) : Prop :=
-  match sps with [] => prev = last | nx :: r => prev <= nx /\ chain nx r last end.
+  match sps with [] => prev = last | nx :: r => prev < nx /\ chain nx r last end.
 Lemma chain_le sps : forall prev last, chain prev sps last -> prev <= last.
 Proof. induction sps as [|nx r IH]; intros prev last H; cbn in H; [lia|]. destruct H as [A B]. specialize (IH _ _ B). lia. Qed.
 
@@ -925,11 +935,11 @@ Proof.
   - destruct W as [_ F]. pose proof (rfind_ok_bound _ _ _ F H). lia.
 Qed.
 
-Lemma split_off_ppf1_sem (t p : pp1 V) a b g1 g2 : cov_wf (pp1_cov t) -> 0 <= a ->
+Lemma split_off_ppf1_sem (t p : pp1 V) a b g1 g2 : cov_wf (pp1_cov t) -> 0 <= a -> a < b ->
   split_off_ppf1 t a b = Some p -> pp1_lookup p g1 g2 = pp1_sem t a b g1 g2.
 Proof.
-  intros W Ha. unfold split_off_ppf1. destruct (split_coverage (pp1_cov t) a b) as [c'|] eqn:E; [|discriminate].
-  intros H; inversion H; subst. destruct (split_coverage_spec _ _ _ _ W Ha E) as [W' SEM].
+  intros W Ha Hab. unfold split_off_ppf1. destruct (split_coverage (pp1_cov t) a b) as [c'|] eqn:E; [|discriminate].
+  intros H; inversion H; subst. destruct (split_coverage_spec _ _ _ _ W Ha Hab E) as [W' SEM].
   rewrite pp1_lookup_sem by exact W'. cbn [pp1_cov pp1_sets]. rewrite SEM. unfold pp1_sem, window.
   destruct (cov_sem (pp1_cov t) g1) as [k|]; [|reflexivity].
   destruct ((a <=? k) && (k <? b)) eqn:Wn; [|reflexivity].
@@ -949,8 +959,8 @@ Proof.
     symmetry. apply andb_false_iff. rewrite Z.leb_gt, Z.ltb_ge. lia.
   - destruct C as [C1 C2]. destruct (split_off_ppf1 t prev nx) as [p|] eqn:E; [|discriminate].
     destruct (split_loop (split_off_ppf1 t) nx r) as [ps'|] eqn:E2; [|discriminate]. inversion H; subst.
-    cbn [first_some]. rewrite (split_off_ppf1_sem t p prev nx g1 g2 W Hp E).
-    rewrite (IH nx ps' ltac:(lia) C2 eq_refl). pose proof (chain_le _ _ _ C2) as L.
+    cbn [first_some]. rewrite (split_off_ppf1_sem t p prev nx g1 g2 W Hp C1 E).
+    rewrite (IH nx ps' ltac:(lia) C2 E2). pose proof (chain_le _ _ _ C2) as L.
     unfold pp1_sem. destruct (cov_sem (pp1_cov t) g1) as [k|]; [|reflexivity].
     destruct (Z_lt_le_dec k prev); [|destruct (Z_lt_le_dec k nx)].
     + replace (prev <=? k) with false by (symmetry; apply Z.leb_gt; lia).
